@@ -705,7 +705,7 @@ class CPGen:
         elif hz == 'accumulator':
             s = ['hz1 = 0', 'do i = 1, 3', '  hz1 = hz1 + i', 'end do', f'oi({T1}) = hz1']
         elif hz == 'accumulator_varbound':
-            s = ['hz1 = 0', 'do i = 1, n', '  hz1 = hz1 + 2', '  ia(i) = ia(i) + hz1', 'end do', f'oi({T1}) = hz1']
+            s = ['hz1 = 0', 'do i = 1, n', '  hz1 = hz1 + 2', '  tab(1 + mod(i, 5)) = hz1', 'end do', f'oi({T1}) = hz1 + tab(2)']
         elif hz == 'cond_assign_in_loop':
             s = ['hz1 = 2', 'do i = 1, 4', '  if (k1 + i > 5) hz1 = 9', 'end do', f'oi({T1}) = hz1']
         elif hz == 'save_init':
